@@ -100,6 +100,10 @@ class BaseTaskPool:
         self._tasks_running: Dict[int, Task[Any]] = {}
         self._tasks_cancelled: Dict[int, Task[Any]] = {}
         self._tasks_ended: Dict[int, Task[Any]] = {}
+        # IDs of tasks that have not taken their first step yet and of those
+        # among them that were cancelled in the meantime:
+        self._tasks_unstarted: Set[int] = set()
+        self._tasks_cancelled_early: Set[int] = set()
 
         # Synchronisation primitives necessary for managing the pool.
         self._enough_room: Semaphore = Semaphore()
@@ -354,7 +358,14 @@ class BaseTaskPool:
                 It is run with the `task_id` as its only positional argument.
         """
         log.info("Started %s", self._task_name(task_id))
+        self._tasks_unstarted.discard(task_id)
         try:
+            if task_id in self._tasks_cancelled_early:
+                # Cancelled before the first step; the coroutine never starts.
+                self._tasks_cancelled_early.discard(task_id)
+                if iscoroutine(awaitable):
+                    awaitable.close()
+                raise CancelledError
             return await awaitable
         except CancelledError:
             await self._task_cancellation(
@@ -413,6 +424,7 @@ class BaseTaskPool:
             task_id = self._num_started
             self._num_started += 1
             group_reg.add(task_id)
+            self._tasks_unstarted.add(task_id)
             self._tasks_running[task_id] = create_task(
                 coro=self._task_wrapper(
                     awaitable, task_id, end_callback, cancel_callback
@@ -494,7 +506,20 @@ class BaseTaskPool:
         """
         tasks = [self._get_running_task(task_id) for task_id in task_ids]
         kw = self._get_cancel_kw(msg)
-        for task in tasks:
+        for task_id, task in zip(task_ids, tasks):
+            self._cancel_task(task_id, task, **kw)
+
+    def _cancel_task(self, task_id: int, task: Task[Any], **kw: Any) -> None:
+        """
+        Cancels a running task.
+
+        A task that has not taken its first step yet would never execute its
+        wrapper, if it were cancelled right away. Its cancellation is deferred
+        to that first step instead.
+        """
+        if task_id in self._tasks_unstarted:
+            self._tasks_cancelled_early.add(task_id)
+        else:
             task.cancel(**kw)
 
     def _cancel_group_meta_tasks(self, group_name: str) -> None:
@@ -534,10 +559,12 @@ class BaseTaskPool:
         """
         self._cancel_group_meta_tasks(group_name)
         while group_reg:
+            task_id = group_reg.pop()
             try:
-                self._tasks_running[group_reg.pop()].cancel(**cancel_kw)
+                task = self._tasks_running[task_id]
             except KeyError:
                 continue
+            self._cancel_task(task_id, task, **cancel_kw)
         log.debug("%s cancelled tasks from group %s", str(self), group_name)
 
     def cancel_group(self, group_name: str, msg: str | None = None) -> None:
